@@ -429,6 +429,18 @@ class Gen:
         return {"t": "host", "decls": self.declarations(), "combo": combo, "host_spelling": sp}
 
     def at_rule(self, depth, sel_depth):
+        x = self._at_rule(depth, sel_depth)
+        if x.get("body") == "rules" and x["name"] != "starting-style" and self.chance(0.1):
+            # the same at-rule directly inside itself (identical preludes), around a `:host` rule: the wrappers
+            # replayed for the low-priority output are two, not one
+            import copy
+            inner = {"t": "at", "name": x["name"], "pre": copy.deepcopy(x["pre"]), "body": "rules", "rules": [self.host_rule()] + x["rules"]}
+            if "kw_spelling" in x:
+                inner["kw_spelling"] = x["kw_spelling"]
+            x = dict(x, rules=[inner] + ([self.qualified(sel_depth)] if self.chance(0.3) else []))
+        return x
+
+    def _at_rule(self, depth, sel_depth):
         kind = self.pick(["media", "media", "supports", "document", "layer", "container", "scope", "starting-style", "keyframes", "font-face", "statement", "page"])
         if kind == "starting-style":
             return {"t": "at", "name": "starting-style", "pre": [], "body": "rules", "rules": self.rules(depth - 1, sel_depth, in_group=True)}
@@ -568,6 +580,13 @@ class Gen:
         if imports:
             for _ in range(self.r.randrange(0, 3)):
                 rules.append(self.import_rule())
+        if imports and self.chance(0.06):
+            # nothing but `@layer` blocks in front of late imports: a layer block is an "other rule" like any
+            for _ in range(self.r.randrange(1, 3)):
+                rules.append({"t": "at", "name": "layer", "pre": self.pick([[ident("base", ctx="prelude", ws=True)], []]), "body": "rules", "rules": self.rules(1, 1, in_group=True)})
+            for _ in range(self.r.randrange(1, 3)):
+                rules.append(self.import_rule())
+            return rules
         rules.extend(self.rules(self.r.randrange(0, 5), self.r.randrange(0, 4), top=True))
         if imports and self.chance(0.18):
             # imports after other rules: still rewritten, but each one is flagged
